@@ -17,48 +17,92 @@ impl<T: Atomic> Atom<T> {
     pub fn new(v: T) -> Self {
         Self(T::I::new(v.into()))
     }
+    #[cfg_attr(feature = "verif", track_caller)]
     #[cfg_attr(feature = "log_trace", track_caller)]
     pub fn load(&self) -> T {
         trace!("{} load", core::panic::Location::caller());
+        #[cfg(feature = "verif")]
+        crate::verif::hook(crate::verif::LOAD, self as *const Self as usize, size_of::<Self>());
         self.0.load().into()
     }
+    #[cfg_attr(feature = "verif", track_caller)]
     #[cfg_attr(feature = "log_trace", track_caller)]
     pub fn store(&self, v: T) {
         trace!("{} store", core::panic::Location::caller());
+        #[cfg(feature = "verif")]
+        crate::verif::hook(crate::verif::STORE, self as *const Self as usize, size_of::<Self>());
         self.0.store(v.into());
     }
+    #[cfg_attr(feature = "verif", track_caller)]
     #[cfg_attr(feature = "log_trace", track_caller)]
     pub fn swap(&self, v: T) -> T {
         trace!("{} swap", core::panic::Location::caller());
+        #[cfg(feature = "verif")]
+        crate::verif::hook(crate::verif::SWAP, self as *const Self as usize, size_of::<Self>());
         self.0.swap(v.into()).into()
     }
+    #[cfg_attr(feature = "verif", track_caller)]
     #[cfg_attr(feature = "log_trace", track_caller)]
     pub fn compare_exchange(&self, current: T, new: T) -> Result<T, T> {
         trace!("{} cmpxchg", core::panic::Location::caller());
+        #[cfg(feature = "verif")]
+        crate::verif::hook(crate::verif::CAS, self as *const Self as usize, size_of::<Self>());
         match self.0.compare_exchange(current.into(), new.into()) {
             Ok(v) => Ok(v.into()),
             Err(v) => Err(v.into()),
         }
     }
+    #[cfg_attr(feature = "verif", track_caller)]
     #[cfg_attr(feature = "log_trace", track_caller)]
     pub fn compare_exchange_weak(&self, current: T, new: T) -> Result<T, T> {
         trace!("{} cmpxchgw", core::panic::Location::caller());
+        #[cfg(feature = "verif")]
+        crate::verif::hook(crate::verif::CAS, self as *const Self as usize, size_of::<Self>());
         match self.0.compare_exchange_weak(current.into(), new.into()) {
             Ok(v) => Ok(v.into()),
             Err(v) => Err(v.into()),
         }
     }
+    #[cfg_attr(feature = "verif", track_caller)]
     #[cfg_attr(feature = "log_trace", track_caller)]
     pub fn try_update<F: FnMut(T) -> Option<T>>(&self, mut f: F) -> Result<T, T> {
         trace!("{} update", core::panic::Location::caller());
+        // explicit load-then-CAS loop so that every access passes the hook
+        #[cfg(feature = "verif")]
+        {
+            let mut cur = self.load();
+            loop {
+                let Some(new) = f(cur) else {
+                    return Err(cur);
+                };
+                match self.compare_exchange(cur, new) {
+                    Ok(v) => return Ok(v),
+                    Err(v) => cur = v,
+                }
+            }
+        }
+        #[cfg(not(feature = "verif"))]
         match self.0.try_update(|v| f(v.into()).map(Into::into)) {
             Ok(v) => Ok(v.into()),
             Err(v) => Err(v.into()),
         }
     }
+    #[cfg_attr(feature = "verif", track_caller)]
     #[cfg_attr(feature = "log_trace", track_caller)]
     pub fn update<F: FnMut(T) -> T>(&self, mut f: F) -> T {
         trace!("{} update", core::panic::Location::caller());
+        // explicit load-then-CAS loop so that every access passes the hook
+        #[cfg(feature = "verif")]
+        {
+            let mut cur = self.load();
+            loop {
+                match self.compare_exchange(cur, f(cur)) {
+                    Ok(v) => return v,
+                    Err(v) => cur = v,
+                }
+            }
+        }
+        #[cfg(not(feature = "verif"))]
         self.0.update(|v| f(v.into()).into()).into()
     }
 }
@@ -123,7 +167,10 @@ macro_rules! atomic_trivial {
 macro_rules! fn_trivial {
     ($ty:ident ; $($name:ident),+) => {
         $(
+            #[cfg_attr(feature = "verif", track_caller)]
             pub fn $name(&self, v: $ty) -> $ty {
+                #[cfg(feature = "verif")]
+                crate::verif::hook(crate::verif::RMW, self as *const Self as usize, size_of::<Self>());
                 AtomicImpl::$name(&self.0, v)
             }
         )+
